@@ -6,7 +6,7 @@ From Coq Require Import List NArith Bool Arith.
 Import ListNotations.
 From BWGrammar Require Import Grammar GrammarProofs Hooks HooksProofs LLk LLkProofs.
 From BWGrammar.Gen Require Import GrammarGen.
-From BWEngine Require Import Chan ChanProofs.
+From BWEngine Require Import Chan ChanProofs ChanVals.
 From Coq.Strings Require Import Byte.
 From BWLexer Require Unicode Lexer LexerProofs.
 From BWLexer.Gen Require LexTablesGen.
@@ -50,6 +50,34 @@ Theorem C08_undrained_leak_refuted :
   exists s, steps nat 2 false (init nat [1; 2; 3; 4]%nat 0) s /\ terminal nat 2 false s /\ closed nat s = false.
 Proof. exact undrained_leak_refuted. Qed.
 Print Assumptions C08_undrained_leak_refuted.
+
+(* the same protocol with the values that travel (ChanVals.v: a ghost records what was received and what the parser
+   obtained; every step of the protocol above is a step there and conversely).  In every reachable state, for every
+   token list, capacity, drain setting and number of tokens the parser asks for: nothing is lost, duplicated or
+   reordered (received ++ buffer ++ not yet sent = the lexer's token list), and the parser has obtained a prefix of the
+   list followed by EOF pads, pads only after the whole list.  This is the stream the look-ahead window starts from. *)
+Theorem C08_channel_delivers_in_order : forall (A : Type) cap drain (toks : list A) n s,
+  steps A cap drain (init A toks n) s ->
+  exists g, vsteps A cap drain (init A toks n, mkG A [] []) (s, g) /\
+    recv A g ++ buf A s ++ todo A s = toks /\
+    exists k m, got A g = map Some (firstn k toks) ++ repeat None m /\ (k <= List.length toks)%nat /\ (m <> 0%nat -> k = List.length toks).
+Proof.
+  intros A cap drain toks n s H. destruct (steps_lift A cap drain _ _ H (mkG A [] [])) as [g V].
+  exists g. split; [exact V|]. exact (delivered_in_order A cap drain toks n s g V).
+Qed.
+Print Assumptions C08_channel_delivers_in_order.
+
+Example C08_channel_nonvacuous :
+  exists s g, vsteps nat 1 true (init nat [7]%nat 2, mkG nat [] []) (s, g) /\ got nat g = [Some 7%nat; None].
+Proof.
+  eexists. eexists. split.
+  - eapply vsteps_cons; [apply V_send; cbn; auto|].
+    eapply vsteps_cons; [apply V_recv; reflexivity|].
+    eapply vsteps_cons; [apply V_close|].
+    eapply vsteps_cons; [apply V_eof_pad|].
+    apply vsteps_refl.
+  - reflexivity.
+Qed.
 
 (* the token source of the parser (llk.go): `&l.tkns[0]` in Current / CanAccept / Consume and `&l.tkns[j]` in Peek index
    the look-ahead window.  For every look-ahead k, token list and run of Consume attempts the window holds exactly k+1
